@@ -29,13 +29,23 @@ func TestProp(t *testing.T) {
 		r.Inconclusive("reference self-test failed: " + err.Error())
 		return
 	}
-	r.SetRule("enumerated: etype {16,17,18,19,20,23} x plaintext length 0..130 x usage set (29 iana constants + 127,128,255,256,1024,2^31) x K seeded keys (the last one shared byte-for-byte by all etypes of equal key length) x seeded contents, " +
+	r.SetRule("enumerated: etype {16,17,18,19,20,23} x plaintext length 0..130 (thorough: 0..300 and the neighbours of 512, 1024, 4096, 16384, 65536) x usage set (29 iana constants + 127,128,255,256,1024,2^31) x K seeded keys (2 quick / 32 thorough; the last one shared byte-for-byte by all etypes of equal key length) x seeded contents, " +
+		"plus a key usage sweep (every usage number 1..4095, thorough: 1..65535 and 100 000 seeded 32-bit numbers, per etype with a fixed key and a 21-byte plaintext); " +
 		"each in both directions (gokrb5 encrypt -> reference decrypt, reference encrypt -> gokrb5 decrypt) through crypto.GetEncryptedData/DecryptMessage and the EType interface; " +
 		"distinct = (etype,len,usage,key index); non-trivial = every case (each performs two encryptions and four decryptions)")
 	r.Assume("reference implementation ref/kcrypto written from RFC 3961/3962/8009/4757, self-tested against the RFC vectors on every run")
 	nkeys := 2
+	lens := make([]int, 0, 400)
+	for n := 0; n <= 130; n++ {
+		lens = append(lens, n)
+	}
 	if vh.Thorough() {
-		nkeys = 8
+		nkeys = 32
+		for n := 131; n <= 300; n++ {
+			lens = append(lens, n)
+		}
+		// block, page and 16-bit boundaries
+		lens = append(lens, 511, 512, 513, 1023, 1024, 1025, 4095, 4096, 4097, 16383, 16384, 16385, 65535, 65536, 65537)
 	}
 	type job struct {
 		et  int32
@@ -58,7 +68,7 @@ func TestProp(t *testing.T) {
 	}
 	var units []unit
 	for _, j := range jobs {
-		for n := 0; n <= 130; n++ {
+		for _, n := range lens {
 			units = append(units, unit{j, n})
 		}
 	}
@@ -68,9 +78,12 @@ func TestProp(t *testing.T) {
 			one(r, u.j.et, u.j.ki, u.j.key, u.n, usage)
 		}
 	})
+	usageSweep(r)
 	r.Exhaustive("etype x length 0..130 x usage set")
+	r.Require("usage_sweep_interoperates", 20000)
 	r.Require("gokrb5_encrypt_ref_decrypt_ok", 1000)
 	r.Require("ref_encrypt_gokrb5_decrypt_ok", 1000)
+	r.Require("same_buffer_decrypts_again", 1000)
 	for _, et := range kcrypto.Etypes {
 		r.Require(fmt.Sprintf("etype_%d_cases", et), 100)
 	}
@@ -171,6 +184,23 @@ func one(r *vh.Run, et int32, ki int, key []byte, n int, usage uint32) {
 	} else {
 		r.Inc("ref_encrypt_gokrb5_decrypt_ok")
 	}
+	// the same ciphertext buffer again: after a successful decryption, and after an attempt under another usage that must be
+	// rejected (a receiver that tries several keys or usages presents one buffer repeatedly)
+	buf := append([]byte{}, ct...)
+	var g1, g2 []byte
+	var ge1, ge2, geo error
+	if p, v, w := vh.Guard(func() {
+		g1, ge1 = crypto.DecryptMessage(buf, ekey, usage)
+		_, geo = crypto.DecryptMessage(buf, ekey, usage+1)
+		g2, ge2 = crypto.DecryptMessage(buf, ekey, usage)
+	}); p {
+		viol("panic-decrypt|"+w+"|"+vh.PanicClass(v), "DecryptMessage panicked on a repeated buffer: "+v, map[string]any{"ciphertext": fmt.Sprintf("%x", ct)})
+	} else if ge1 == nil && (ge2 != nil || !ptEqual(et, g2, pt)) {
+		viol("gokrb5-cannot-decrypt-again", fmt.Sprintf("the same ciphertext buffer decrypts the first time and not the second: %x err %v (other usage in between: %v; buffer modified: %v)", g2, ge2, geo, !bytes.Equal(buf, ct)),
+			map[string]any{"ciphertext": fmt.Sprintf("%x", ct), "buffer_afterwards": fmt.Sprintf("%x", buf)})
+	} else if ge1 == nil && ptEqual(et, g1, pt) {
+		r.Inc("same_buffer_decrypts_again")
+	}
 	ed := types.EncryptedData{EType: et, KVNO: 3, Cipher: append([]byte{}, ct...)}
 	if p, v, w := vh.Guard(func() { got, gerr = crypto.DecryptEncPart(ed, ekey, usage) }); p {
 		viol("panic-decrypt|"+w+"|"+vh.PanicClass(v), "DecryptEncPart panicked: "+v, nil)
@@ -196,4 +226,82 @@ func ptEqual(et int32, got, want []byte) bool {
 		}
 	}
 	return true
+}
+
+// usageSweep: the usage number enters the derivation of Ke and Ki through n-fold, whose end-around carries depend on the bit
+// pattern of the number; the usages the library itself uses say nothing about the others.
+func usageSweep(r *vh.Run) {
+	max, nrand := uint32(4096), 0
+	if vh.Thorough() {
+		max, nrand = 65536, 100000
+	}
+	const chunk = 256
+	type unit struct {
+		et   int32
+		from uint32
+		rnd  bool
+	}
+	var units []unit
+	for _, et := range kcrypto.Etypes {
+		for f := uint32(0); f < max; f += chunk {
+			units = append(units, unit{et, f, false})
+		}
+		for i := 0; i < nrand; i += chunk {
+			units = append(units, unit{et, uint32(i), true})
+		}
+	}
+	vh.Workers(len(units), func(i int) {
+		u := units[i]
+		if !r.Mine(fmt.Sprintf("usage-sweep/et=%d/from=%d/rnd=%v", u.et, u.from, u.rnd)) {
+			return
+		}
+		key := pcommon.RefKey(vh.NewRand("c05sweepkey", u.et), u.et)
+		ekey := types.EncryptionKey{KeyType: u.et, KeyValue: key}
+		g := vh.NewRand("c05sweep", u.et, u.from, u.rnd)
+		for j := uint32(0); j < chunk; j++ {
+			usage := u.from + j
+			if u.rnd {
+				usage = uint32(g.U64())
+			}
+			if usage == 0 {
+				// not a key usage (RFC 4120 7.5.1 numbers them from 1); the library uses 0 internally for "do not derive" and
+				// returns an error when asked to encrypt with it
+				continue
+			}
+			ck := fmt.Sprintf("usage-sweep/et=%d/usage=%d", u.et, usage)
+			r.Eval(ck, true)
+			pt := g.Bytes(21)
+			d := map[string]any{"case": ck, "etype": u.et, "usage": usage, "key": fmt.Sprintf("%x", key), "plaintext": fmt.Sprintf("%x", pt)}
+			ct, err := kcrypto.EncryptConf(u.et, key, usage, pt, g.Bytes(kcrypto.ConfLen(u.et)))
+			if err != nil {
+				r.Inconclusive("reference encryption failed: " + err.Error())
+				return
+			}
+			var got []byte
+			var gerr, eerr error
+			var ed types.EncryptedData
+			if p, v, w := vh.Guard(func() {
+				got, gerr = crypto.DecryptMessage(append([]byte{}, ct...), ekey, usage)
+				ed, eerr = crypto.GetEncryptedData(append([]byte{}, pt...), ekey, usage, 1)
+			}); p {
+				r.Violation(fmt.Sprintf("C05|panic|%s|%s|etype=%d|usage-sweep", w, vh.PanicClass(v), u.et), "panicked: "+v, d)
+				continue
+			}
+			if gerr != nil || !ptEqual(u.et, got, pt) {
+				d["ciphertext"] = fmt.Sprintf("%x", ct)
+				r.Violation(fmt.Sprintf("C05|gokrb5-cannot-decrypt|etype=%d|usage-sweep", u.et), fmt.Sprintf("gokrb5 does not decrypt the reference ciphertext for key usage %d: %x err %v", usage, got, gerr), d)
+				continue
+			}
+			if eerr != nil {
+				r.Violation(fmt.Sprintf("C05|encrypt-error|etype=%d|usage-sweep", u.et), fmt.Sprintf("GetEncryptedData failed for key usage %d: %v", usage, eerr), d)
+				continue
+			}
+			if back, _, derr := kcrypto.Decrypt(u.et, key, usage, ed.Cipher); derr != nil || !ptEqual(u.et, back, pt) {
+				d["ciphertext"] = fmt.Sprintf("%x", ed.Cipher)
+				r.Violation(fmt.Sprintf("C05|ref-cannot-decrypt|etype=%d|usage-sweep", u.et), fmt.Sprintf("the reference does not decrypt gokrb5's ciphertext for key usage %d: %v", usage, derr), d)
+				continue
+			}
+			r.Inc("usage_sweep_interoperates")
+		}
+	})
 }
